@@ -70,8 +70,8 @@ def body(c):
                 res[k] = f()
             except Exception as e:  # noqa
                 err.append(e)
-        ts = [threading.Thread(target=job, args=("bignat", lambda: vlib.run_tlc("common/MC_BigNat.tla", "common/MC_BigNat.cfg", workers=2, coverage=True, timeout=900))),
-              threading.Thread(target=job, args=("gen", lambda: vlib.run_tlc("lex/Gen_Validators.tla", cfg, env={"FAMILY": fam_path}, workers=6 if c.quick else 8,
+        ts = [threading.Thread(target=job, args=("bignat", lambda: vlib.run_tlc("common/MC_BigNat.tla", "common/MC_BigNat.cfg", workers=1, coverage=True, timeout=900))),
+              threading.Thread(target=job, args=("gen", lambda: vlib.run_tlc("lex/Gen_Validators.tla", cfg, env={"FAMILY": fam_path}, workers=3 if c.quick else 4,
                                                                              timeout=3000, keep_lines=60, xmx="8g")))]
         for t in ts:
             t.start()
@@ -115,7 +115,7 @@ def body(c):
     for lo in range(0, len(cases), step):
         part = c.path("trace_%d.ndjson" % (lo // step))
         vlib.write_ndjson(part, cases[lo:lo + step])
-        v = vlib.run_tlc("lex/ValidatorsTrace.tla", "lex/ValidatorsTrace.cfg", env={"TRACE": part}, workers=8, timeout=3000, keep_lines=50, xmx="8g")
+        v = vlib.run_tlc("lex/ValidatorsTrace.tla", "lex/ValidatorsTrace.cfg", env={"TRACE": part}, workers=4, timeout=3000, keep_lines=50, xmx="8g")
         for t in v.tagged("VERDICT"):
             devs = re.findall(r'"([^"]+)"', t[3]) if isinstance(t[3], str) else []
             verdicts[t[1]] = "ok" if t[2] == "ok" else ("known:" + ",".join(sorted(devs)) if t[2] == "known" and devs else "violation" + (": " + devs[0] if devs else ""))
